@@ -1,12 +1,279 @@
 // Contract harnesses for statime-csptp/src/messages.rs (child module: sees private items).
+// Property C45 (CSPTP server): CsptpMessage::{deserialize,is_request,new_response,new_follow_up}
+// + Message::serialize. Bound: request datagrams <= 56 bytes (header 34 + Sync 10 + request TLV 8
+// + 4 spare), thorough 72; the real receive buffer is 512 bytes (MAX_MESSAGE_SIZE).
 #![allow(unused_imports)]
 use super::*;
+use statime_wire::{ClockAccuracy, ClockQuality};
+
+fn any_ts() -> Timestamp {
+    let s: u64 = kani::any();
+    let n: u32 = kani::any();
+    kani::assume(s < (1 << 48) && n < 1_000_000_000);
+    Timestamp::new(s, n).unwrap()
+}
+
+fn any_leap() -> NtpLeapIndicator {
+    match kani::any::<u8>() {
+        0 => NtpLeapIndicator::NoWarning,
+        1 => NtpLeapIndicator::Leap61,
+        2 => NtpLeapIndicator::Leap59,
+        3 => NtpLeapIndicator::Unknown,
+        _ => NtpLeapIndicator::Unsynchronized,
+    }
+}
+
+fn any_state() -> CsptpState {
+    CsptpState {
+        grandmaster_identity: ClockIdentity(kani::any()),
+        grandmaster_priority_1: kani::any(),
+        grandmaster_priority_2: kani::any(),
+        grandmaster_clock_quality: ClockQuality {
+            clock_class: kani::any(),
+            clock_accuracy: ClockAccuracy::from_primitive(kani::any()),
+            offset_scaled_log_variance: kani::any(),
+        },
+        steps_removed: kani::any(),
+        ptp_timescale: kani::any(),
+        time_traceable: kani::any(),
+        frequency_traceable: kani::any(),
+    }
+}
+
+fn ts_bytes(t: Timestamp) -> [u8; 10] {
+    let mut b = [0u8; 10];
+    t.serialize(&mut b).unwrap();
+    b
+}
+
+/// The server's whole synchronous path on one datagram of up to N bytes, as `handle_packet` chains
+/// it (deserialize -> is_request -> new_response(.., None, ..) -> serialize -> new_follow_up ->
+/// serialize), with the postconditions of the STATEMENT on the two produced datagrams.
+fn server_contract<const N: usize>() {
+    let d: [u8; N] = kani::any();
+    let len: usize = kani::any();
+    kani::assume(len <= N);
+    let parsed = CsptpMessage::deserialize(&d[..len]);
+    let Ok(req) = parsed else {
+        kani::cover!(len == N, "full-size datagram rejected");
+        return; // not answered (handle_packet returns)
+    };
+    if !req.is_request() {
+        // answers only requests: the response builder itself must refuse, too
+        let mut rb = [0u8; 128];
+        let snap = TimeSnapshot::default();
+        let st = any_state();
+        let r = CsptpMessage::new_response(&mut rb, &req, any_ts(), None, &snap, &st);
+        let non_request_refused = r.is_err();
+        assert!(non_request_refused);
+        kani::cover!(req.is_response(), "a response sent to the server is not answered");
+        kani::cover!(matches!(req.message.body, MessageBody::FollowUp(_)), "a follow-up sent to the server is not answered");
+        return;
+    }
+    // ---- well-formedness of what is being answered (necessary conditions, from the bytes)
+    assert!(len >= 34 + 10 + 8);
+    assert!(d[0] == 0x30 && d[5] == 0x00); // majorSdoId 3, minorSdoId 0, messageType Sync
+    assert!(d[1] & 0x0f == 2); // versionPTP 2
+    let ml = u16::from_be_bytes([d[2], d[3]]) as usize;
+    assert!(ml >= 52 && ml <= len);
+    // ---- the answer
+    let recv_ts = any_ts();
+    let mut snap = TimeSnapshot::default();
+    snap.leap_indicator = any_leap();
+    let st = any_state();
+    let mut rb = [0u8; 128];
+    let resp = CsptpMessage::new_response(&mut rb, &req, recv_ts, None, &snap, &st);
+    let request_is_answered = resp.is_ok();
+    assert!(request_is_answered);
+    let resp = resp.unwrap();
+    assert!(resp.is_response() && !resp.is_request());
+    assert!(resp.header.domain_number == d[4]);
+    assert!(resp.header.sequence_id == u16::from_be_bytes([d[30], d[31]]));
+    assert!(resp.header.two_step_flag); // no send timestamp yet => two-step
+    assert!(resp.header.unicast_flag);
+    assert!(resp.header.leap61 == (snap.leap_indicator == NtpLeapIndicator::Leap61));
+    assert!(resp.header.leap59 == (snap.leap_indicator == NtpLeapIndicator::Leap59));
+    let mut out = [0u8; MAX_MESSAGE_SIZE];
+    let w = resp.serialize(&mut out);
+    assert!(w.is_ok());
+    let w = w.unwrap();
+    let status_requested = w == 34 + 10 + 22 + 22;
+    assert!(w == 34 + 10 + 22 || status_requested);
+    // on the wire: Sync, CSPTP sdoId, domain and sequence id echoed
+    assert!(out[0] == 0x30 && out[5] == 0 && out[1] == 0x12);
+    assert!(out[4] == d[4] && out[30] == d[30] && out[31] == d[31]);
+    assert!(out[6] & 2 == 2 && out[6] & 4 == 4);
+    // response TLV: type, length, request ingress timestamp, request correction field
+    assert!(out[44] == 0xff && out[45] == 0x01 && out[46] == 0 && out[47] == 18);
+    let rt = ts_bytes(recv_ts);
+    let i: usize = kani::any();
+    kani::assume(i < 10);
+    assert!(out[48 + i] == rt[i]);
+    let j: usize = kani::any();
+    kani::assume(j < 8);
+    assert!(out[58 + j] == d[8 + j]);
+    if status_requested {
+        assert!(out[66] == 0xf0 && out[67] == 0x02 && out[68] == 0 && out[69] == 18);
+        assert!(out[70] == st.grandmaster_priority_1 && out[75] == st.grandmaster_priority_2);
+        assert!(u16::from_be_bytes([out[76], out[77]]) == st.steps_removed);
+        assert!(out[80 + j] == st.grandmaster_identity.0[j]);
+    }
+    // ---- the follow-up carries the supplied send timestamp and the same ids
+    let send_ts = any_ts();
+    let fu = CsptpMessage::new_follow_up(&resp, send_ts);
+    assert!(fu.is_ok());
+    let fu = fu.unwrap();
+    assert!(matches!(fu.message.body, MessageBody::FollowUp(f) if f.precise_origin_timestamp == send_ts));
+    let mut out2 = [0u8; MAX_MESSAGE_SIZE];
+    let w2 = fu.serialize(&mut out2);
+    assert!(matches!(w2, Ok(44)));
+    assert!(out2[0] == 0x38 && out2[5] == 0 && out2[1] == 0x12);
+    assert!(out2[4] == d[4] && out2[30] == d[30] && out2[31] == d[31]);
+    let st_b = ts_bytes(send_ts);
+    assert!(out2[34 + i] == st_b[i]);
+    kani::cover!(status_requested, "request asking for the status TLV");
+    kani::cover!(!status_requested, "request without status");
+    kani::cover!(len > ml, "request followed by padding");
+}
+
+#[kani::proof]
+#[kani::unwind(8)]
+fn c45_tb_server_contract_56() {
+    server_contract::<56>();
+}
+
+#[kani::proof]
+#[kani::unwind(12)]
+fn c45_tb_server_contract_72() {
+    server_contract::<72>();
+}
+
+/// new_follow_up refuses anything that is not a two-step response (sanity check of the builder).
+#[kani::proof]
+#[kani::unwind(8)]
+fn c45_b_follow_up_only_for_two_step_response() {
+    let mut rq = [0u8; 8];
+    let domain: u8 = kani::any();
+    let seq: u16 = kani::any();
+    let req = CsptpMessage::new_request(&mut rq, domain, seq).unwrap();
+    assert!(req.is_request() && !req.is_response());
+    assert!(CsptpMessage::new_follow_up(&req, any_ts()).is_err());
+    let snap = TimeSnapshot::default();
+    let st = any_state();
+    let mut rb = [0u8; 128];
+    let one_step = CsptpMessage::new_response(&mut rb, &req, any_ts(), Some(any_ts()), &snap, &st).unwrap();
+    assert!(!one_step.header.two_step_flag);
+    assert!(one_step.header.domain_number == domain && one_step.header.sequence_id == seq);
+    assert!(CsptpMessage::new_follow_up(&one_step, any_ts()).is_err());
+    kani::cover!(true, "reachable");
+}
+
+/// The library's own request survives its own parser (client -> server direction).
+#[kani::proof]
+#[kani::unwind(8)]
+fn c45_tb_own_request_parses() {
+    let mut rq = [0u8; 8];
+    let req = CsptpMessage::new_request(&mut rq, kani::any(), kani::any()).unwrap();
+    let mut wire = [0u8; 64];
+    let n = req.serialize(&mut wire).unwrap();
+    assert!(n == 52);
+    let back = CsptpMessage::deserialize(&wire[..n]);
+    assert!(back.is_ok() && back.unwrap().is_request());
+    kani::cover!(true, "reachable");
+}
+
+/// Builders alone (no parsing of symbolic bytes): for every request header content (domain,
+/// sequence id, correctionField, flags), both request-TLV flag values, every reception time,
+/// optional send time, leap indicator and CsptpState: new_response echoes domain, sequence id,
+/// reception time and correctionField (struct fields AND wire bytes), includes the status TLV iff
+/// requested, is two-step iff no send time was supplied; new_follow_up carries exactly the
+/// supplied send time and the same ids, and exists only for two-step responses.
+#[kani::proof]
+#[kani::unwind(8)]
+fn c45_b_builders_echo() {
+    let want_status: bool = kani::any();
+    let mut tl = [0u8; 8];
+    let mut b = TlvSetBuilder::new(&mut tl);
+    CsptpRequestTlv { csptp_status: want_status, alt_timescale: kani::any() }.add_to(&mut b).unwrap();
+    let domain: u8 = kani::any();
+    let seq: u16 = kani::any();
+    let corr: i64 = kani::any();
+    let req = CsptpMessage {
+        message: Message {
+            header: Header {
+                correction_field: TimeInterval(corr),
+                two_step_flag: kani::any(),
+                leap61: kani::any(),
+                log_message_interval: kani::any(),
+                ..csptp_header(domain, seq)
+            },
+            body: MessageBody::Sync(SyncMessage { origin_timestamp: any_ts() }),
+            suffix: b.build(),
+        },
+    };
+    let recv_ts = any_ts();
+    let send: Option<Timestamp> = if kani::any() { Some(any_ts()) } else { None };
+    let mut snap = TimeSnapshot::default();
+    snap.leap_indicator = any_leap();
+    let st = any_state();
+    let mut rb = [0u8; 128];
+    let resp = CsptpMessage::new_response(&mut rb, &req, recv_ts, send, &snap, &st);
+    assert!(resp.is_ok());
+    let resp = resp.unwrap();
+    assert!(resp.header.domain_number == domain && resp.header.sequence_id == seq);
+    assert!(resp.header.two_step_flag == send.is_none());
+    assert!(matches!(resp.message.body, MessageBody::Sync(s) if s.origin_timestamp == send.unwrap_or_default()));
+    let mut out = [0u8; 96];
+    let w = resp.serialize(&mut out).unwrap();
+    assert!(w == if want_status { 88 } else { 66 });
+    assert!(out[0] == 0x30 && out[5] == 0 && out[1] == 0x12);
+    assert!(out[4] == domain && u16::from_be_bytes([out[30], out[31]]) == seq);
+    assert!(out[44] == 0xff && out[45] == 0x01 && out[46] == 0 && out[47] == 18);
+    let rt = ts_bytes(recv_ts);
+    let i: usize = kani::any();
+    kani::assume(i < 10);
+    assert!(out[48 + i] == rt[i]);
+    let cb = corr.to_be_bytes();
+    let j: usize = kani::any();
+    kani::assume(j < 8);
+    assert!(out[58 + j] == cb[j]);
+    if want_status {
+        assert!(out[66] == 0xf0 && out[67] == 0x02 && out[69] == 18);
+        assert!(out[70] == st.grandmaster_priority_1 && out[75] == st.grandmaster_priority_2);
+        assert!(u16::from_be_bytes([out[76], out[77]]) == st.steps_removed);
+        assert!(out[80 + j] == st.grandmaster_identity.0[j]);
+    }
+    let send_ts = any_ts();
+    let fu = CsptpMessage::new_follow_up(&resp, send_ts);
+    assert!(fu.is_ok() == send.is_none());
+    if let Ok(fu) = fu {
+        assert!(fu.header.domain_number == domain && fu.header.sequence_id == seq);
+        let mut o2 = [0u8; 64];
+        assert!(matches!(fu.serialize(&mut o2), Ok(44)));
+        assert!(o2[0] == 0x38 && o2[4] == domain && u16::from_be_bytes([o2[30], o2[31]]) == seq);
+        let sb = ts_bytes(send_ts);
+        assert!(o2[34 + i] == sb[i]);
+    }
+    kani::cover!(want_status && send.is_none(), "two-step answer with status");
+    kani::cover!(!want_status && send.is_some(), "one-step answer without status");
+}
+
+/// canary: claims the response echoes a wrong sequence id.
+#[kani::proof]
+#[kani::unwind(8)]
+fn c45_canary_sequence_id_not_echoed() {
+    let mut rq = [0u8; 8];
+    let seq: u16 = kani::any();
+    let req = CsptpMessage::new_request(&mut rq, 5, seq).unwrap();
+    let snap = TimeSnapshot::default();
+    let st = any_state();
+    let mut rb = [0u8; 128];
+    let resp = CsptpMessage::new_response(&mut rb, &req, any_ts(), None, &snap, &st).unwrap();
+    assert!(resp.header.sequence_id != seq);
+}
 
 #[cfg(all(kani, test))]
 mod replay {
-    extern crate std;
-    #[allow(unused_imports)]
-    use std::{vec, vec::Vec};
     use super::*;
     include!(concat!(env!("VERIF_REPLAY_DIR"), "/statime_csptp__messages.rs"));
 }
